@@ -96,6 +96,16 @@ Fixpoint len_walk (len : Z) (h : list event) (obs : list Z) : bool :=
   end.
 Definition spec_ring_size (c : pcase) : bool := len_walk (Z.of_nat (p_size c)) (p_events c) (p_lens c).
 
+(* dropped exactly when the dispatch theorem says so: the history (who is held, who crashed, what was sent) is the
+   harness' script, so the model's verdict is what C19_dispatch prescribes for this very situation - a message is
+   counted as unhandled iff every worker was full (no live worker with room, no dead slot to replace) *)
+Definition spec_drop_iff_full (c : pcase) : bool :=
+  let want := rev (map (fun t => (m_id (fst t), verdict_code (snd t))) (verdicts (model_end c))) in
+  forallb (fun v => match find (fun w => fst w =? fst v) want with
+                    | Some w => Bool.eqb (snd w =? 0) (snd v =? 0)
+                    | None => true
+                    end) (p_verdicts c).
+
 Definition spec_ok (c : pcase) : bool :=
   spec_one_worker c && spec_sender_kept c && spec_reply_reaches_caller c && spec_ring_size c.
 
